@@ -674,8 +674,12 @@ func (w *World) MutateInputs() {
 func (w *World) ObserveUnlessInputMode(name string, v any) {
 	if w.Mode != Input {
 		w.observe(name, Digest(v))
+	} else {
+		w.observe(name, skipped)
 	}
 }
+
+const skipped = "(not comparable in this world)"
 
 // Held declares memory held privately by the component (reached through unexported fields): never scribbled,
 // compared for sharing with everything else and observed.
@@ -814,7 +818,7 @@ func judge(s Spec) (fs []Finding, st stats, harnessErr string) {
 			st.observations++
 			if d, ok := dirty.obs[name]; !ok {
 				diffs = append(diffs, name+" (not reached)")
-			} else if d != clean.obs[name] {
+			} else if d != clean.obs[name] && d != skipped {
 				if name == "completed" {
 					diffs = append(diffs, "execution ("+d+")")
 				} else {
